@@ -55,9 +55,14 @@ func shuffled(xs []string, seed int64) []string {
 }
 
 func evalFiles(files []string) (*schema.Realm, error) {
+	return evalFilesNamed(files, "f%d.hcl")
+}
+
+// evalFilesNamed: the i-th file is given the name fmt.Sprintf(pattern, i), e.g. one base name in several directories.
+func evalFilesNamed(files []string, pattern string) (*schema.Realm, error) {
 	p := hclparse.NewParser()
 	for i, f := range files {
-		if _, diag := p.ParseHCL([]byte(f), fmt.Sprintf("f%d.hcl", i)); diag.HasErrors() {
+		if _, diag := p.ParseHCL([]byte(f), fmt.Sprintf(pattern, i)); diag.HasErrors() {
 			return nil, diag
 		}
 	}
@@ -140,24 +145,27 @@ func checkPerm(c PCase) (int, error) {
 		if len(files) >= 2 {
 			files[0] += "\nlocals {\n  base = \"x\"\n}\n"
 			files[len(files)-1] += "\nlocals {\n  derived = \"${local.base}y\"\n}\n"
-			outcomes := map[string]int{}
-			var order []string
-			for i := 0; i < 24; i++ {
-				o := ""
-				if r, err := evalFiles(files); err != nil {
-					o = "error: " + err.Error()
-				} else if b, err := sqlite.MarshalHCL(r); err != nil {
-					o = "marshal error: " + err.Error()
-				} else {
-					o = string(b)
+			// file names as given on a command line: distinct base names, and one base name in several directories
+			for _, pattern := range []string{"f%d.hcl", "schema/part%d/tables.hcl"} {
+				outcomes := map[string]int{}
+				var order []string
+				for i := 0; i < 24; i++ {
+					o := ""
+					if r, err := evalFilesNamed(files, pattern); err != nil {
+						o = "error: " + err.Error()
+					} else if b, err := sqlite.MarshalHCL(r); err != nil {
+						o = "marshal error: " + err.Error()
+					} else {
+						o = string(b)
+					}
+					if outcomes[o] == 0 {
+						order = append(order, o)
+					}
+					outcomes[o]++
 				}
-				if outcomes[o] == 0 {
-					order = append(order, o)
+				if len(order) > 1 {
+					return 0, fmt.Errorf("evaluating the same %d HCL files (named like %q) 24 times gives %d different outcomes (locals of one file building on a local of another):\n--- %d times:\n%s\n--- %d times:\n%s", len(files), pattern, len(order), outcomes[order[0]], clip(order[0]), outcomes[order[1]], clip(order[1]))
 				}
-				outcomes[o]++
-			}
-			if len(order) > 1 {
-				return 0, fmt.Errorf("evaluating the same %d HCL files 24 times gives %d different outcomes (locals of one file building on a local of another):\n--- %d times:\n%s\n--- %d times:\n%s", len(files), len(order), outcomes[order[0]], clip(order[0]), outcomes[order[1]], clip(order[1]))
 			}
 		}
 	}
